@@ -59,6 +59,10 @@ class ParticleGibbsSubtreeSampler(ParticleGibbsTreeSampler):
             if label != outlier_node_name:
                 nodes.append(label)
 
+        if len(nodes) == 0:
+            # All data points are outliers, there is no subtree to choose
+            return super().sample_tree(tree)
+
         subtree_root_child = self._rng.choice(nodes)
 
         subtree_root = tree.get_parent(subtree_root_child)
